@@ -140,6 +140,16 @@ class ExitAtPickle:
         raise SystemExit(7)
 
 
+class IndexErrArg:
+    def __reduce__(self):
+        raise IndexError("pickling raises IndexError")
+
+
+class KeyErrArg:
+    def __reduce__(self):
+        raise KeyError("pickling raises KeyError")
+
+
 class HugeArg:
     def __reduce__(self):
         raise struct.error("'i' format requires -2147483648 <= number <= 2147483647")
